@@ -11,7 +11,14 @@ MANIFEST = {
             "coap_pdu_resize / coap_pdu_check_resize / coap_add_token / coap_add_option (append branch) / coap_add_data / "
             "coap_new_optlist+insert / coap_delete_optlist / coap_add_optlist_pdu / coap_new_string|str_const|bin_const and of the "
             "ownership skeleton of coap_send -> coap_send_internal -> {sent & freed | queued node owns it | delayed node owns it | "
-            "error & freed}: failure_atomic (a failing primitive leaves the PDU and the ledger as they were), no_leak_on_failure, "
+            "error & freed}, for a session that is established or NOT YET established (every message is then delayed: "
+            "coap_session_delay_pdu) and with coap_session_connected draining the delay queue: send_pdu_consumed_exactly_once "
+            "(for every oracle and session state the ledger events of coap_send are exactly `free buffer, free header` -- sent or "
+            "refused -- or `alloc node` with that one node owning the PDU in the send queue or the delay queue), "
+            "delayed_send_node_failure_releases_once (message has to be delayed and the delay-queue node is refused: "
+            "COAP_INVALID_MID, session untouched, the PDU released exactly once), send_delayed_iff, connected_drain_spec (every "
+            "node taken off the delay queue is moved to the send queue still owning its PDU, or released with it exactly once; "
+            "no request is made); failure_atomic (a failing primitive leaves the PDU and the ledger as they were), no_leak_on_failure, "
             "send_consumes_pdu (released exactly once or owned by exactly one node; COAP_INVALID_MID only with the PDU released), "
             "next_op_succeeds, alloc_count_matches, and ledger_replay / script_ledger_ok (for every script and oracle M's ledger is "
             "exactly what the verified monitor ledgerOk computes from M's trace). Also in M and proved for every oracle: Observe "
@@ -60,7 +67,10 @@ MANIFEST = {
             "the five hand-built Block1 requests in GENERATED orders with repeated blocks "
             "(b1o.<order>: the final block early, again before the gap is filled, a block after the end), and hand-built Block1 "
             "transfers to the UNKNOWN resource alone and interleaved with a transfer to /put in fixed and generated orders "
-            "(b1u.<pairs>) are run on "
+            "(b1u.<pairs>), sends that have to WAIT in the session's delay queue (dly: three CONs and a NON back to back with "
+            "NSTART = 1, a lost first transmission with CONs queued behind it) and CoAP over TCP on the kernel's loopback (tcp: "
+            "a TCP endpoint, two client sessions, CSM exchange, 400- and 1200-byte messages that make coap_read_session grow the "
+            "receive PDU; a session that is still up must still be served after a failure closed another one) are run on "
             "the real code with every single allocation request failing (about 3600 runs; thorough: every pair, capped at 40000 per scenario, 1500 per generated order, 8000 / 6000 for oscobs / echo), "
             "each followed by a canary exchange on the same contexts, and "
             "judged by ASan/UBSan, the verified ledger monitor on the REAL allocation trace, LSan, PDU-consumed evidence, the canary, "
@@ -74,8 +84,8 @@ MANIFEST = {
             "not be inserted, and repeated a request WITHOUT its body when the body could not be copied); no open "
             "finding. The ledger theorem of the lg_crcv assumes the discipline of track_fetch_observe's callers (block numbers of "
             "one lg_crcv only go up; outside it the real code leaks tokens WITHOUT any allocation failure -- Echo repeat in the "
-            "middle of a block-wise FETCH --, not this property's subject; memory safety is proved without the assumption). TCP/TLS/WS "
-            "sessions, Q-Block and proxy paths are not in the catalogue. Only requests made "
+            "middle of a block-wise FETCH --, not this property's subject; memory safety is proved without the assumption). TLS/WS "
+            "sessions, Q-Block and proxy paths are not in the catalogue; of the TCP receive path nothing is in M (observation only). Only requests made "
             "through coap_malloc_type/coap_realloc_type are failed (uthash's malloc exits on OOM; GnuTLS/libc untouched). Trusted: "
             "Lean kernel (+ propext, Classical.choice, Quot.sound), harness + allocator wrap + virtual-time epoll_wait + judge, "
             "addr2line for site names, the hand transcription M (checked on the scripts run).",
@@ -83,17 +93,22 @@ MANIFEST = {
 }
 LEAN_MODULES = ["CoapVerif.Props.C18"]
 NAMESPACE = "Coap.C18"
+# clean (exit 0) at seeds 1..3 quick on 2026-09-28 with dly / tcp and the delayed-send scripts (E0 / E1)
 REQUIRED_THEOREMS = ["failure_atomic", "no_leak_on_failure", "send_consumes_pdu", "send_error_keeps_slot", "next_op_succeeds",
                      "alloc_count_matches", "ledger_replay", "script_ledger_ok", "script_verdict",
                      "observer_refs_balanced", "observer_refs_count", "add_observer_spec", "createSub_spec", "deleteObserver_spec",
                      "pduDuplicate_live", "addObserver_balanced", "add_observer_succeeds_with_memory",
                      "obs_token_cnt_within_list", "track_realloc_failure_atomic", "lg_crcv_ledger_sound", "lg_srcv_ledger_sound",
                      "lg_srcv_failure_drops_state", "lg_srcv_restart_succeeds", "lg_crcv_new_succeeds_with_memory",
-                     "lg_srcv_setup_failure_atomic", "lg_srcv_uri_path_failure"]
+                     "lg_srcv_setup_failure_atomic", "lg_srcv_uri_path_failure",
+                     "send_pdu_consumed_exactly_once", "send_delayed_iff", "delayed_send_node_failure_releases_once",
+                     "delayed_send_succeeds_with_memory", "connected_drain_spec", "drain_reqs_replays"]
 RULE = ("(1) helper-layer scripts `ahelp k1 k2 <ops>`: random sequences (4..16 calls) of coap_pdu_init / add_token / add_option "
         "(ascending numbers, lengths on both sides of 12/13, 268/269) / add_data / pdu_resize / pdu_check_resize / delete_pdu / "
         "new_optlist+insert_optlist / add_optlist_pdu / delete_optlist / new_string|str_const|bin_const / delete / coap_send "
-        "(CON and NON, socket write ok or failing) / in about a third of the scripts coap_add_observer and coap_delete_observer on "
+        "(CON and NON, socket write ok or failing; in delayed-send scripts several sends with a PDU each, so that a CON finds the "
+        "NSTART slot taken, E0 = session not established: every message is delayed, E1 = coap_session_connected drains the delay "
+        "queue) / in about a third of the scripts coap_add_observer and coap_delete_observer on "
         "the server's session with the current PDU as the request (same token again, another token for the same request, after "
         "more options or a payload, token lengths 0..300) with sizes on both sides of the 256-byte first buffer and of max_size, run "
         "under EVERY single failing request index (and sampled pairs) on the real code and on the model M: return values, "
@@ -126,7 +141,9 @@ RULE = ("(1) helper-layer scripts `ahelp k1 k2 <ops>`: random sequences (4..16 c
         "check_freshness), b1o.<order> (the five hand-built Block1 requests in 2 fixed and "
         "5 generated orders with repeated blocks; thorough 6), b1u.<pairs> (hand-built Block1 transfers to the unknown resource "
         "and to /put, 2 fixed + 2 generated interleavings, thorough 4: the unknown-resource transfer first or second, final "
-        "block early, repeats, the /put transfer complete or left unfinished): every single failing request index k (quick and thorough) and pairs (k, k2) (quick: a "
+        "block early, repeats, the /put transfer complete or left unfinished), dly (sends waiting in the delay queue: second and "
+        "third CON of a burst, CONs behind a retransmission), tcp (CoAP over TCP on loopback: two sessions, messages of 400 and "
+        "1200 bytes, a session still up must still be served): every single failing request index k (quick and thorough) and pairs (k, k2) (quick: a "
         "seeded sample of 4000, thorough: every pair of a scenario up to 40000 per scenario, 1500 per generated b1o / b1u order, 8000 of oscobs, 6000 of echo; a seeded sample beyond), each "
         "followed by a canary exchange, judged by ASan/UBSan, the Lean-verified ledger monitor on the real allocation trace, "
         "LSan, PDU-consumed evidence, 'a 2.xx body that claims to be complete is the body' (obsre: 'a notification is computed "
@@ -157,7 +174,11 @@ ASSUMPTIONS = ["PROVED only for the helper layer (PDU init/resize/token/option/d
                "only allocations made through coap_malloc_type / coap_realloc_type are failed; uthash's internal malloc (exit on "
                "OOM), GnuTLS and libc allocations are not",
                "option model domain: coap_add_option in ascending order, numbers other than Proxy-Uri/Proxy-Scheme (append branch)",
-               "send skeleton: UDP client session, ESTABLISHED, block mode off, no OSCORE, no Echo pending",
+               "send skeleton: UDP client session, ESTABLISHED or not yet (state forced by the script: E0 = CONNECTING, E1 = "
+               "coap_session_connected), block mode off, no OSCORE, no Echo pending, message ids pairwise distinct (the `mid already "
+               "in use` refusal of coap_session_delay_pdu does not occur), drain as for an unreliable transport",
+               "tcp scenario: real loopback TCP sockets; the harness waits in real time (at most 2 s) until nothing is in flight "
+               "(SIOCOUTQ = 0 on every connection, both sides agree on the number of connections) before it lets virtual time pass",
                "observer model: one observable resource, one UDP server session, request code not FETCH (payload copied but not part "
                "of the key), no observe_added / observe_deleted callbacks, COAP_RESOURCE_MAX_SUBSCRIBER = 0; add_observer_spec's ledger "
                "part is stated for the case that no subscription is replaced (the replaced one is covered by deleteObserver_spec "
@@ -184,7 +205,7 @@ B1O_PAIR_CAP = 1500     # ... per generated b1o.<order> / b1u.<pairs> scenario (
 # a seeded sample keeps the thorough tier inside its 30 minutes
 SCN_PAIR_CAP = {"oscobs": 8000, "echo": 6000}
 SCENARIOS = ["uri", "pdu", "rr", "b1", "b2", "obs", "setup", "osc", "h508", "wkc", "b1raw", "b2raw", "obsblk", "cache", "async", "obsre",
-             "obsfetch", "oscobs", "echo", "xtok"]
+             "obsfetch", "oscobs", "echo", "xtok", "dly", "tcp"]
 # parametrised scenario b1o.<digits>: the five hand-built Block1 requests of b1raw in a generated order (repeats allowed);
 # these two always run (the final block early, and again before the gap is filled / a repeated middle block, a block after the end)
 B1O_FIXED = ["b1o.0442130", "b1o.4400123312"]
@@ -213,6 +234,8 @@ EXPECT0 = {
     "oscobs": "subs1,notify1,subs1,notify1,cancel1,subs0,notify0,req5,rsp5,c2.05,c2.05,c2.05,c2.05,c2.05,nack0,body0/0,put0/0",
     "echo": "subs1,notify1,cancel1,subs0,req11,rsp6,c2.05,c2.05,c2.05,c2.05,c2.05,c2.05,nack0,body0/0,put0/0",
     "xtok": "req2,rsp2,c2.05,c2.05,nack0,body0/0,put0/0",
+    "dly": "dq2,dq0,dq2,dq0,req7,rsp7,c2.05,c2.05,c2.05,c2.05,c2.05,c2.05,c2.05,nack0,body0/0,put0/0",
+    "tcp": "sess11,est11/2,tput4/0,srvs2,up2,req7,rsp7,c2.04,c2.04,c2.04,c2.05,c2.04,c2.05,c2.05,nack0,body0/0,put0/0",
     "obsfetch": "subs1,notify1,subs2,notify1,cancel1,subs1,cancel1,subs0,notify0,req7,rsp7,c2.05,c2.05,c2.05,c2.05,c2.05,c2.05,c2.05,nack0,body0/0,put0/0",
 }
 
@@ -341,7 +364,31 @@ def gen_script(rng):
     # after more options / a payload (a further subscription; the payload is copied), tokens on both sides of 8/12/13/268/269
     obs_mode = rng.random() < 0.35
     obs_toks = [rng.choice([0, 1, 2, 4, 8]), rng.choice([1, 3, 8, 9, 12, 13]), rng.choice([5, 200, 268, 269, 300])]
+    # delayed-send scripts (about a third): several sends in one script, each with a PDU of its own, so that a CON finds the NSTART
+    # slot taken (coap_session_delay_pdu: the delay-queue node is one more request that can fail), the session not yet
+    # established (E0: every message is delayed, NON included) and coap_session_connected draining the queue (E1), with the
+    # socket write working or failing
+    dly_mode = not obs_mode and rng.random() < 0.45
     for _ in range(n):
+        if dly_mode and rng.random() < 0.6:
+            c = rng.random()
+            if c < 0.62:
+                ops.append("I%d" % rng.choice([0, 8, 64, 300, 1152]))
+                bound += 2
+                if rng.random() < 0.3:
+                    ops.append("T%d" % rng.choice([1, 4, 8, 8, 9]))
+                    bound += 1
+                ops.append(rng.choice(["Vc", "Vc", "Vc", "Vn"]))
+                have_pdu = False
+                bound += 1
+            elif c < 0.80:
+                ops.append(rng.choice(["E0", "E1", "E1"]))
+            elif c < 0.90:
+                ops.append(rng.choice(["W0", "W0", "W1"]))
+            else:
+                ops.append(rng.choice(["Vc", "Vn", "K"]))
+                bound += 1
+            continue
         if obs_mode and rng.random() < 0.4:
             if rng.random() < 0.7:
                 ops.append("A%d" % rng.choice(obs_toks))
@@ -606,6 +653,11 @@ def symptoms(c):
         what["retry"] = ("coap_cancel_observe failed because one of its own allocation requests failed, and the SAME call made again "
                          "with memory available fails too while the server still holds the subscription: the observation can no "
                          "longer be cancelled through the API")
+    if re.search(r"(^|,)deaf\d", out):
+        what["deaf"] = ("a TCP session that is still established is no longer served after the failure hit ANOTHER session "
+                        "(answered/asked: %s)" % re.search(r"deaf(\d+/\d+)", out).group(1))
+    if scn == "tcp" and re.search(r"tput\d+/[1-9]", out):
+        what["body"] = "a PUT handler on a TCP session was given a payload that is not the payload sent (%s)" % re.search(r"tput\d+/\d+", out).group(0)
     m = re.search(r"body(\d+)/(\d+),put(\d+)/(\d+)", out)
     if m and (int(m.group(2)) or int(m.group(4))):
         what["body"] = "the application was handed a truncated or wrong body as if it were complete (%s)" % m.group(0)
